@@ -57,6 +57,7 @@ inductive VOp where
   | resize (sz : Nat) | resizev (sz v : Nat) | assignn (cnt v : Nat) | assignr (xs : List Nat)
   | eraseIf (md r : Nat)
   | cctor | mctor | cassign | massign | cassignSelf | swap | swapSelf
+  | ctorN (sz : Nat) | ctorNV (cnt v : Nat) | ctorR (xs : List Nat)   -- `t.~T(); new (&t) T(n)` / `T(n, v)` / `T(first, last)`
   deriving Repr, DecidableEq, Inhabited
 
 def noMember : Except LErr St := .error (.pre "no such member")
@@ -115,6 +116,9 @@ def vstep (fam : Fam) (k : Kind) (cap : Nat) (s : St) (t : Bool) (op : VOp) : Ex
       match ivMoveConstruct k m1 base ob no with
       | .error e => .error e
       | .ok (m2, nt, no') => .ok (s.put2 t m2 nt no')
+  | .sv, .ctorN sz => s.upd t (svCtorN k cap base loc m n sz)
+  | .sv, .ctorNV cnt v => s.upd t (svCtorNV k cap base tmp m n cnt v)
+  | .sv, .ctorR xs => s.upd t (svCtorList k cap base tmp m n xs)
   | .sv, .cassign => s.upd t (svAssignFrom k false m base n ob no)
   | .sv, .massign => s.upd t (svAssignFrom k true m base n ob no)
   | .sv, .cassignSelf => .ok s        -- `if (this == &other) return *this;`
@@ -214,6 +218,20 @@ def fsEmplace (k : Kind) (cap base tmp loc loc2 : Nat) (m : Mem) (n key : Nat) (
 def fsEraseKey (k : Kind) (base : Nat) (m : Mem) (n key : Nat) : Except LErr (Mem × Nat) :=
   svEraseIf k base (fun x => x == key) m n
 
+/-- `container_type c; c.emplace_back(x)…; set.replace(move(c));` and `c` goes out of scope.
+    `flat_set::replace(container_type&& container)` is `_container = move(container)`: the move assignment of
+    static_vector (`clear(); move_insert(begin(), other.begin(), other.end())`).  `tv` = storage of the local `c`. -/
+def fsReplace (k : Kind) (cap base tv : Nat) (m : Mem) (n : Nat) (xs : List Nat) : Except LErr (Mem × Nat) :=
+  match svPushValues k cap tv xs m 0 with
+  | .error e => .error e
+  | .ok (m1, nt) =>
+    match svAssignFrom k true m1 base n tv nt with
+    | .error e => .error e
+    | .ok (m2, n2) =>
+      match destroyRange m2 nt tv with
+      | .error e => .error e
+      | .ok m3 => .ok (m3, n2)
+
 inductive SFam where | ss | fs
   deriving Repr, DecidableEq, Inhabited
 
@@ -222,6 +240,7 @@ inductive SOp where
   | eraseKey (v : Nat) | eraseAt (pos : Nat) | eraseRange (f l : Nat) | clear
   | cctor | mctor | cassign | massign | cassignSelf | swap | swapSelf
   | extract
+  | replace (xs : List Nat)
   deriving Repr, DecidableEq, Inhabited
 
 def sstep (fam : SFam) (k : Kind) (cap : Nat) (s : St) (t : Bool) (op : SOp) : Except LErr St :=
@@ -262,13 +281,17 @@ def sstep (fam : SFam) (k : Kind) (cap : Nat) (s : St) (t : Bool) (op : SOp) : E
         | .error e => .error e
         | .ok m3 => .ok (s.put t m3 n2)
   | .ss, .extract => noMember
+  | .fs, .replace xs => s.upd t (fsReplace k cap base (tvOf cap) m n xs)
+  | .ss, .replace _ => noMember
 
 /-! ### variant / optional / expected (`cap = 1`) -/
 
 inductive XOp where
   | emplace (j v : Nat)        -- `emplace<J>(int)`
-  | emplaceCopy (j v : Nat)    -- `emplace<J>(T const&)` and `v = t` (converting assignment = emplace)
-  | emplaceMove (j v : Nat)    -- `emplace<J>(T&&)` and `v = move(t)`
+  | emplaceCopy (j v : Nat)    -- `emplace<J>(T const&)`
+  | emplaceMove (j v : Nat)    -- `emplace<J>(T&&)`
+  | assignCopy (j v : Nat)     -- `v = t` with `t` an lvalue of alternative type `J` (converting assignment)
+  | assignMove (j v : Nat)     -- `v = move(t)`
   | optAssignCopy (v : Nat)    -- `optional = t`
   | optAssignMove (v : Nat)    -- `optional = move(t)`
   | reset                      -- `optional::reset()` = `emplace<0>(nullopt)`
@@ -288,6 +311,8 @@ def xstep (k : Kind) (trk : Nat → Bool) (s : St) (t : Bool) (op : XOp) : Excep
   | .emplace j v => s.upd t (varEmplace k trk m sl ix j (.value v))
   | .emplaceCopy j v => s.upd t (varEmplace k trk m sl ix j (.copy (.ext v)))
   | .emplaceMove j v => s.upd t (varEmplace k trk m sl ix j (.move (.ext v)))
+  | .assignCopy j v => s.upd t (varAssignValue k trk false m sl ix j (.ext v))
+  | .assignMove j v => s.upd t (varAssignValue k trk true m sl ix j (.ext v))
   | .optAssignCopy v => s.upd t (optAssignValue k trk m sl ix tv (.copy (.ext v)))
   | .optAssignMove v => s.upd t (optAssignValue k trk m sl ix tv (.move (.ext v)))
   | .reset => s.upd t (varEmplace k trk m sl ix 0 (.value 0))
@@ -311,9 +336,9 @@ def xstep (k : Kind) (trk : Nat → Bool) (s : St) (t : Bool) (op : XOp) : Excep
     | .error e => .error e
     | .ok (m1, nt, _) => .ok (s.put t m1 nt)
   | .assignOwn =>
-    -- `operator=(T&& t)` is `emplace<J>(forward<T>(t))`: `destroy()` runs first, then the new alternative is
-    -- copy-constructed from `t`, which is the object that was just destroyed
-    s.upd t (varEmplace k trk m sl ix ix (.copy (.slot sl)))
+    -- `operator=(T&& t)` with `t = (*this)[index_v<index()>]`, an lvalue: the selected alternative is the one
+    -- held, so the held object is copy-assigned from itself
+    s.upd t (varAssignValue k trk false m sl ix ix (.slot sl))
   | .use =>
     match varUse trk m sl ix with
     | .error e => .error e
@@ -342,6 +367,7 @@ inductive FOp where
   | reset                                            -- `t = nullptr`
   | cctor | mctor | cassign | massign | cassignSelf | massignSelf | swap | swapSelf
   | invoke
+  | conv (asg mv : Bool) (j v : Nat)                 -- from a local function object of a smaller capacity holding callable `j`
   deriving Repr, DecidableEq, Inhabited
 
 def fstep (k : Kind) (s : St) (t : Bool) (op : FOp) : Except LErr St :=
@@ -402,6 +428,7 @@ def fstep (k : Kind) (s : St) (t : Bool) (op : FOp) : Except LErr St :=
     match fnInvoke m sl c with
     | .error e => .error e
     | .ok _ => .ok s
+  | .conv asg mv j v => s.upd t (fnFromOtherCap k asg mv m sl c p (t0Of 1) j (.copy (.ext v)))
 
 def ffinish (s : St) : Except LErr St :=
   match fnDestroyCur s.mem (baseOf 1 true) s.b with
